@@ -62,8 +62,7 @@ package merkledag
 //   n.encoded != nil && n.cached defined  ==>  n.cached is the current builder's CID of n.encoded
 // i.e. whoever writes data or links drops n.encoded, whoever changes the builder drops n.cached
 // (EncodeProtobuf recomputes n.cached whenever it recomputes n.encoded).
-//@ func ext (github.com/ipfs/go-cid.Cid).Defined
-//@   ensures c == cid.Undef ==> !result
+// ((Cid).Defined: declared in blockstore, a lower package)
 //@ func (*ProtoNode).SetData
 //@   prop C11
 //@   arith int
